@@ -2,7 +2,7 @@
   Bridge: the regenerated feature-table WRITER of seqio/insdc.go (`Gts/Gen/InsdcWrite.lean`, go2lean
   gwriter*.go) IS the model's table writer of `Gts/Model/GenBank.lean` (property C01):
 
-    GetQualifierType            = the code of `Registry.typeOf`        (`getQualifierType_eq`)
+    GetQualifierType            = the code of `Registry.typeOf`        (`getQualifierTypeW_eq`)
     QualifierIO.String          = `qualifierText`                      (`qualifierIOString_eq`)
     QualifierFormatter.String   = `qualifierFmt`                       (`qualifierFormatterString_eq`)
     INSDCFormatter{t, "     ", 21}.String() = `tableText`, for EVERY table, panic for panic
@@ -44,23 +44,23 @@ def isLiteralIn (reg : Registry) (n : Bytes) : Bool := decide (n ∈ reg.literal
 def isToggleIn (reg : Registry) (n : Bytes) : Bool := decide (n ∈ reg.toggle)
 
 /-- the `iota` block `QuotedQualifier … UnknownQualifier` -/
-def qtypeCode : QType → Int
+def qtypeCodeW : QType → Int
   | .quoted => 0
   | .literal => 1
   | .toggle => 2
   | .unknown => 3
 
 /-- **insdc.go `GetQualifierType` is `Registry.typeOf`** (quoted before literal before toggle) -/
-theorem getQualifierType_eq (reg : Registry) (name : Bytes) :
-    getQualifierType (isQuotedIn reg) (isLiteralIn reg) (isToggleIn reg) name = qtypeCode (reg.typeOf name) := by
+theorem getQualifierTypeW_eq (reg : Registry) (name : Bytes) :
+    getQualifierType (isQuotedIn reg) (isLiteralIn reg) (isToggleIn reg) name = qtypeCodeW (reg.typeOf name) := by
   unfold getQualifierType Registry.typeOf isQuotedIn isLiteralIn isToggleIn
   by_cases h1 : name ∈ reg.quoted
-  · simp [h1, qtypeCode]
+  · simp [h1, qtypeCodeW]
   · by_cases h2 : name ∈ reg.literal
-    · simp [h1, h2, qtypeCode]
+    · simp [h1, h2, qtypeCodeW]
     · by_cases h3 : name ∈ reg.toggle
-      · simp [h1, h2, h3, qtypeCode]
-      · simp [h1, h2, h3, qtypeCode]
+      · simp [h1, h2, h3, qtypeCodeW]
+      · simp [h1, h2, h3, qtypeCodeW]
 
 /-- **insdc.go `QualifierIO.String` is `qualifierText`**: `/name="value"`, `/name=value`, `/name`, and the
 quoted form for a name of no list -/
@@ -68,9 +68,9 @@ theorem qualifierIOString_eq (reg : Registry) (name value : Bytes) :
     qualifierIOString (isQuotedIn reg) (isLiteralIn reg) (isToggleIn reg) (name, value) =
       qualifierText reg name value := by
   unfold qualifierIOString qualifierIOUnpack qualifierText
-  simp only [getQualifierType_eq]
+  simp only [getQualifierTypeW_eq]
   cases reg.typeOf name <;>
-    simp [qtypeCode, wsLit, List.append_assoc]
+    simp [qtypeCodeW, wsLit, List.append_assoc]
 
 /-- `strings.Replace(s, "\n", "\n"+prefix, -1)` is the model's `addPrefix` -/
 theorem wsReplaceByte_addPrefix (pre : Bytes) (s : Bytes) :
